@@ -78,6 +78,13 @@ type exEmbPtr struct {
 	Y int
 }
 
+type exTag [2]uint8
+
+type exBytes struct {
+	Sum [3]uint8
+	Raw []byte
+}
+
 type exFuncField struct {
 	F func() int
 	G func(int) int
@@ -125,6 +132,8 @@ func exoticCtx() pongo2.Context {
 		"embnil": exEmbPtr{Y: 1}, "pembnil": &exEmbPtr{Y: 2}, "embok": exEmbPtr{exStruct: &st, Y: 3},
 		"nilfn": (func() int)(nil), "nilfn1": (func(int) int)(nil), "ffield": exFuncField{}, "fnnilval": func() *pongo2.Value { return nil },
 		"fnpanic": func() string { panic("user function panics") },
+		// byte arrays and slices in every position (by value: not addressable)
+		"barr": [4]byte{'a', '<', 0xff, 0}, "barr0": [0]byte{}, "btag": exTag{1, 2}, "bfield": exBytes{Sum: [3]uint8{1, 2, 3}, Raw: []byte("r<")}, "barrs": [2][2]byte{{1, 2}, {3, 4}},
 	}
 }
 
@@ -132,12 +141,12 @@ var exNames = []string{"s", "e", "bad", "uni", "num", "fl", "i", "z", "neg", "i8
 	"t", "ff", "n", "l", "le", "ls", "la", "lnil", "by", "arr", "parr", "arr0", "m", "im", "fm", "bm", "am", "mnil", "mm", "st", "pst", "ppst", "nilst", "niliface", "emb",
 	"sv", "si", "tm", "ptm", "niltm", "dur", "fn0", "fn1", "fnv", "fnval", "fnerr", "fnctx", "fn2", "fnany", "fnnil", "fn3out", "fn0out", "fnsafe", "fnbad2", "val", "sval", "err", "undefined",
 	"fnp", "fnst", "fnl", "fnm", "fntm", "fnstr", "fnerrarg", "fnpp",
-	"embnil", "pembnil", "embok", "nilfn", "nilfn1", "ffield", "fnnilval"}
+	"embnil", "pembnil", "embok", "nilfn", "nilfn1", "ffield", "fnnilval", "barr", "barr0", "btag", "bfield", "barrs"}
 
 // functions whose parameters are of pointer / struct / container / interface type: called with every value of the universe
 var exTypedFuncs = []string{"fnp", "fnst", "fnl", "fnm", "fntm", "fnstr", "fnerrarg", "fnpp", "fnany", "fnval"}
 
-var exSteps = []string{"Y", "A", "B", "C", "D", "E", "F", "G", "T", "hidden", "Own", "Hello", "Add", "PtrMethod", "Fails", "Var", "WithCtx", "Val", "String", "Year", "Unix", "Seconds",
+var exSteps = []string{"Sum", "Raw", "Y", "A", "B", "C", "D", "E", "F", "G", "T", "hidden", "Own", "Hello", "Add", "PtrMethod", "Fails", "Var", "WithCtx", "Val", "String", "Year", "Unix", "Seconds",
 	"k", "a", "x", "b", "key", "0", "1", "2", "99", "Len", "Missing", "exStruct", "Error"}
 
 // --- generators ----------------------------------------------------------------
@@ -532,6 +541,14 @@ func c01Run(c c01Case, limit time.Duration) (class, msg string) {
 			ml.files = map[string]string{}
 		}
 		set := pongo2.NewSet("t", ml)
+		switch len(c.Src) % 4 {
+		case 1:
+			set.Options.TrimBlocks, set.Options.LStripBlocks = true, true
+		case 2:
+			set.Options.LStripBlocks = true
+		case 3:
+			set.Options = &pongo2.Options{TrimBlocks: true}
+		}
 		var tpl *pongo2.Template
 		var err error
 		if c.FromFile {
